@@ -141,6 +141,8 @@ def warm_field(f):
                lambda: f(f.mesh.region.center), lambda: f.real, lambda: abs(f), lambda: repr(f),
                lambda: next(iter(f)), lambda: f.mesh.dV):
         _quiet(fn)
+    # what plotting derives from the field (the default filter is the validity as a field)
+    _quiet(lambda: getattr(f, "_valid_as_field", None))
     # component fields and everything assembled from them (anything the field might keep for later is now filled in
     # from the state the field is in at this moment)
     if f.vdims is not None:
